@@ -1317,25 +1317,30 @@ def run_refine(case):
     h = int(math.ceil(w)) // 2
     cols = enc_listlist([[int(img[r][t]) for r in range(n)] for t in range(n_lines)])
     ops = ["c08.validate 1/1 0/1 1/1 0/1"]
-    kymo = make_kymo(case)
-    g_cls = _classes()[0]
-    tracks = [make_track([q[0] for q in tr], [q[1] for q in tr], kymo, case["line_time"]) for tr in case["tracks"]]
-    if g_cls is None or any(t is None for t in tracks):
-        return [UNSEEN], ops
-    group = g_cls(tracks)
-    init = dump_group(group)
     ans = [None]
-    out = {"init": init, "h": h}
-    try:
-        with warnings.catch_warnings():
-            warnings.simplefilter("ignore")
-            refined = lk.refine_tracks_centroid(group, track_width=w * ps, bias_correction=False)
-        out["tracks"] = dump_group(refined)
-        a = enc_group(out["tracks"])
-    except (ValueError, RuntimeError, IndexError) as e:
-        out["refused"] = a = errname(e)
-    ops.append(f"c08.refine {enc_rat(EPS_MOMENT)} {h} {n} {cols} {enc_group(init)}")
-    ans.append(a)
+    if case.get("walk_only"):
+        # an array with negative entries (not a photon-count image: outside the property, no oracle): only here do the
+        # clamps of the pixel walk stop a point, so only here is that branch of the model compared with the code
+        out = {"walk_only": True}
+    else:
+        kymo = make_kymo(case)
+        g_cls = _classes()[0]
+        tracks = [make_track([q[0] for q in tr], [q[1] for q in tr], kymo, case["line_time"]) for tr in case["tracks"]]
+        if g_cls is None or any(t is None for t in tracks):
+            return [UNSEEN], ops
+        group = g_cls(tracks)
+        init = dump_group(group)
+        out = {"init": init, "h": h}
+        try:
+            with warnings.catch_warnings():
+                warnings.simplefilter("ignore")
+                refined = lk.refine_tracks_centroid(group, track_width=w * ps, bias_correction=False)
+            out["tracks"] = dump_group(refined)
+            a = enc_group(out["tracks"])
+        except (ValueError, RuntimeError, IndexError) as e:
+            out["refused"] = a = errname(e)
+        ops.append(f"c08.refine {enc_rat(EPS_MOMENT)} {h} {n} {cols} {enc_group(init)}")
+        ans.append(a)
     # the pixel walk itself, from the rounded points of the first track
     f, _ = _find("refine_peak_based_on_moment")
     pts = [(int(round(c)), int(t)) for t, c in case["tracks"][0] if 0 <= int(round(c)) < n]
@@ -1519,13 +1524,45 @@ def agree(case, i, ia, ma):
                 a, m = _dec_listlist(it[1], lambda x: float(dec_rat(x))), _dec_listlist(mt[1], lambda x: float(dec_rat(x)))
             except Exception:
                 return False
-            return len(a) == len(m) and all(
+            if len(a) == len(m) and all(
                 len(x) == len(y) and all(abs(u - v) <= 1e-9 * max(1.0, abs(u), abs(v)) for u, v in zip(x, y)) for x, y in zip(a, m)
-            )
+            ):
+                return True
+            # the starting pixel is np.round of a double: a coordinate within the last bits of a half-integer says nothing
+            return op == "c08.refine" and refine_hangs_on_rounding(computed(case)[1][i])
         # `duration >= minimum_duration` is decided on doubles: lenient only when the double duration of some track is not
         # the exact one and the exact one is within 1e-9 of the minimum (counted in the evidence)
         return op == "c08.edit" and filter_hangs_on_last_bits(computed(case)[1][i])
     return ia == ma
+
+
+def agree_plain_group(a, m):
+    try:
+        if a.split(" ")[0] != m.split(" ")[0]:
+            return False
+        x, y = (_dec_listlist(v.split(" ")[1], lambda q: float(dec_rat(q))) for v in (a, m))
+        return all(len(p) == len(q) and all(abs(u - v) <= 1e-9 * max(1.0, abs(u), abs(v)) for u, v in zip(p, q)) for p, q in zip(x, y))
+    except Exception:
+        return False
+
+
+def refine_hangs_on_rounding(op):
+    """a `c08.refine` op in which some interpolated coordinate lies within 1e-9 of a half-integer WITHOUT lying exactly on
+    it (rational arithmetic on the doubles): np.round of the double then decides the starting pixel either way"""
+    toks = op.split(" ")
+    try:
+        times = _dec_listlist(toks[5], int)
+        coords = _dec_listlist(toks[6], lambda x: Fraction(dec_rat(x)))
+        for ts, cs in zip(times, coords):
+            for (t0, c0), (t1, c1) in zip(zip(ts, cs), zip(ts[1:], cs[1:])):
+                for t in range(t0, t1 + 1):
+                    x = c0 + (c1 - c0) * Fraction(t - t0, t1 - t0)
+                    d = abs(x - math.floor(x) - Fraction(1, 2))
+                    if 0 < d <= Fraction(1, 10**9):
+                        return True
+    except Exception:
+        return False
+    return False
 
 
 def filter_hangs_on_last_bits(op):
@@ -1754,6 +1791,8 @@ def oracle_refine(case, ia):
     if not ia[0].startswith("ok "):
         return f"refinement raised {ia[0]}"
     d = json.loads(ia[0][3:])
+    if d.get("walk_only"):
+        return None
     if "tracks" not in d:
         return f"refinement of tracks inside the image raised {d.get('refused')}"
     img, ps = case["image"], pixel_size(case)
@@ -1941,7 +1980,7 @@ def nontrivial(case, ia):
     if k == "editops":
         return ia[0].startswith("ok ") and any("tracks" in r for r in json.loads(ia[0][3:])["results"])
     if k == "refine":
-        return ia[0].startswith("ok ") and "tracks" in json.loads(ia[0][3:]) and any(v for row in case["image"] for v in row)
+        return ia[0].startswith("ok ") and ("tracks" in json.loads(ia[0][3:]) or bool(case.get("walk_only"))) and any(v for row in case["image"] for v in row)
     return True
 
 
@@ -2531,6 +2570,19 @@ def cases(tier, rng):
                 for w in (3, 5):
                     yield {"stream": "small-scope-refine", "op": "refine", "image": [[v] for v in vals], "line_time": 0.5,
                            "pixel_size_um": None, "tracks": [[[0, float(c0)]]], "width_px": w}
+    for n in (1, 2, 3):
+        for vals in itertools.product((-4, 0, 5), repeat=n):
+            if min(vals) < 0:
+                for c0 in range(n):
+                    yield {"stream": "small-scope-refine", "op": "refine", "walk_only": True, "image": [[v] for v in vals],
+                           "line_time": 0.5, "pixel_size_um": None, "tracks": [[[0, float(c0)]]], "width_px": 3}
+    r = rng.fork("c08-refine-walk")
+    for i in range(100 if quick else 1500):
+        sub = r.fork(i)
+        n, n_lines = sub.randint(1, 8), sub.randint(1, 4)
+        yield {"stream": "random-refine", "op": "refine", "walk_only": True, "subseed": i, "line_time": 0.5, "pixel_size_um": None,
+               "image": [[sub.randint(-6, 9) for _ in range(n_lines)] for _ in range(n)], "width_px": sub.choice([3, 5]),
+               "tracks": [[[t, float(sub.randint(0, n - 1))] for t in range(n_lines)]]}
     r = rng.fork("c08-refine")
     for i in range(300 if quick else 5000):
         sub = r.fork(i)
@@ -2671,7 +2723,7 @@ def extra_coverage(results):
         if c["op"] == "refine" and r["impl"][0].startswith("ok "):
             d = json.loads(r["impl"][0][3:])
             n_ = len(c["image"])
-            for t0_, t1_ in zip(d["init"], d.get("tracks", [])):
+            for t0_, t1_ in zip(d.get("init", []), d.get("tracks", [])):
                 it_ = dict(zip(t0_["t"], t0_["cidx"]))
                 for tt, cc in zip(t1_["t"], t1_["cidx"]):
                     refine_pts["points"] += 1
@@ -2679,6 +2731,10 @@ def extra_coverage(results):
                     if tt in it_ and abs(cc - it_[tt]) >= 1:
                         refine_pts["moved by at least one pixel"] += 1
             refine_pts["walks compared (c08.moment)"] += sum(1 for o, a in zip(r["ops"], r["impl"]) if o.startswith("c08.moment ") and a != UNSEEN)
+    refine_pts["compared leniently (an interpolated coordinate within 1e-9 of a half-integer, not on it)"] = sum(
+        1 for r in results for o, a, m in zip(r["ops"], r["impl"], r["model"])
+        if o.startswith("c08.refine ") and a != UNSEEN and not r["disagree"] and " " in a and " " in m and not agree_plain_group(a, m)
+    )
     model_steps, lenient_filters, progs, trackofs = {}, 0, 0, 0
     for r in results:
         for o, a, m in zip(r["ops"], r["impl"], r["model"]):
